@@ -83,7 +83,7 @@ def main():
         })
     manifest = {
         "version": 1,
-        "setup_cmd": "cd /verif/sim && CARGO_NET_OFFLINE=true cargo build --release --offline",
+        "setup_cmd": "cd /verif/sim && CARGO_NET_OFFLINE=true cargo build --release --offline && CARGO_NET_OFFLINE=true cargo build --profile plain --offline",
         "hooks": {
             "guard": "--cfg nexrad_verif",
             "enable": "RUSTFLAGS='--cfg nexrad_verif' (set in /verif/sim/.cargo/config.toml); the harness depends on /repo/nexrad-{data,decode,model} by path, so every build uses /repo's working tree",
